@@ -22,6 +22,12 @@ for f in mutants/*.diff; do
 done
 for d in seeded/*/; do
   id=$(basename $d); c=$(echo $id | cut -c1-3)
+  if [ -f $d/OUT_OF_DOMAIN ]; then
+    R=$(tools/mutant.sh /verif/$d/patch.diff $c)
+    rc=$(echo "$R" | sed -n 's/.*exit=\([0-9]*\).*/\1/p')
+    echo "| seeded/$id | independent sub-agent | $c | $rc (n/a) | trigger outside the statement's domain, see seeded/$id/OUT_OF_DOMAIN |" >> $OUT
+    continue
+  fi
   if [ -f $d/NOT_A_BREAKAGE ]; then
     echo "| seeded/$id | independent sub-agent | $c | n/a | not a breakage: it is the repair of a defect of the pinned tree (see seeded/$id/NOT_A_BREAKAGE) |" >> $OUT
     continue
